@@ -171,6 +171,11 @@ Definition fixpoint_case (t : ty) (obs_v : value) (same_value same_bytes consume
   if same_bytes && consumed_all && (same_value || negb (greedy_tail_aligned t obs_v)) then []
   else [92; b2z same_value; b2z same_bytes; b2z consumed_all].
 
+(* decoding the re-encoding raised ProphyError: outside the claim exactly when the decoded message has a
+   greedy tail that does not end aligned (the padding that follows it is read as further elements) *)
+Definition fixpoint_exc_case (t : ty) (obs_v : value) : list Z :=
+  if negb (greedy_tail_aligned t obs_v) then [] else [9100000091].
+
 From Prophy Require Import PcModel.
 
 
@@ -258,6 +263,17 @@ Definition cpp_swap_case (t : ty) (foreign obs : bytes) (obs_ret : Z) (obs_guard
       let g := skipn (length foreign) d in
       if beq msg obs && (r =? obs_ret) && Bool.eqb (beq g guard) obs_guard_ok then []
       else [95; r; b2z (beq msg obs); b2z (beq g guard)]
+  end.
+
+(* C09, messages with a greedy tail: only the members before the last (unlimited) member of the root are
+   converted, the rest of the buffer is left as it was, and the address of that member is returned *)
+Definition cpp_swap_unl_case (t : ty) (v : value) (foreign native obs : bytes) (obs_ret : Z) : list Z :=
+  match t, v with
+  | TStruct fs, VStruct vs =>
+      let off := last_member_offset fs vs false 0 in
+      let exp := firstn (Z.to_nat off) native ++ skipn (Z.to_nat off) foreign in
+      if beq obs exp && (obs_ret =? off) then [] else [96; off; b2z (beq obs exp)]
+  | _, _ => [97]
   end.
 
 From Prophy Require Import ApiSpec.
